@@ -1,9 +1,131 @@
 import CotengraVerif.Driver.Util
+import CotengraVerif.Model.Slicing
 
 namespace Cotengra.Driver.C06
-open Lean Cotengra Cotengra.Driver
+open Lean Cotengra Cotengra.Driver Cotengra.Slicing
 
-/-- ops of property C06 (name them "c06.<op>") -/
-def handlers : List (String × Handler) := []
+def optNat (j : Json) : Except String (Option Nat) :=
+  match j with
+  | .null => pure none
+  | _ => do pure (some (← natOf j))
+
+def jOptNat : Option Nat → Json
+  | none => Json.null
+  | some v => jNat v
+
+/-- `[inner(0/1), ind, size, project|null]` -/
+def infoOfJson (j : Json) : Except String SliceInfo := do
+  match ← arrOf j with
+  | [a, b, c, d] => pure ⟨(← natOf a) != 0, ← natOf b, ← natOf c, ← optNat d⟩
+  | _ => throw "expected [inner, ind, size, project]"
+
+def infosOf (j : Json) : Except String (List SliceInfo) := do (← arrOf j).mapM infoOfJson
+
+def jInfo (s : SliceInfo) : Json :=
+  jArr [jNat (if s.inner then 1 else 0), jNat s.ind, jNat s.size, jOptNat s.project]
+
+def opOf (j : Json) : Except String SliceOp := do
+  match ← arrOf j with
+  | [k, a, p] =>
+    if (← k.getStr?) == "remove" then pure (.remove (← natOf a) (← optNat p)) else throw "bad op"
+  | [k, a] => if (← k.getStr?) == "restore" then pure (.restore (← natOf a)) else throw "bad op"
+  | _ => throw "bad op"
+
+/-- row-major position -/
+def ravel (shape idx : List Nat) : Nat := (shape.zip idx).foldl (fun acc p => acc * p.1 + p.2) 0
+
+def allIdx : List Nat → List (List Nat)
+  | [] => [[]]
+  | d :: ds => (List.range d).flatMap fun i => (allIdx ds).map (i :: ·)
+
+def arrOfJson (j : Json) : Except String Arr := do
+  let shape ← natList (← field j "shape")
+  let data := ((← arrOf (← field j "data")).mapM intOf)
+  let arr := (← data).toArray
+  pure { shape := shape, get := fun idx => arr.getD (ravel shape idx) 0 }
+
+def jArrOf (a : Arr) : Json :=
+  jObj [("shape", jNats a.shape), ("data", jArr ((allIdx a.shape).map fun idx => jInt (a.get idx)))]
+
+def jKey (k : List (Ix × Nat)) : Json := jPairs k
+
+/-- op `c06.state`: run a history of remove_ind / restore_ind on the slicing state -/
+def state : Handler := fun j => do
+  let n ← netOf (← field j "net")
+  let ops ← (← arrOf (← field j "ops")).mapM opOf
+  let (st, errs) := ops.foldl (fun (acc : SliceState × List Bool) op =>
+    let r := match op with
+      | .remove ind p => removeInd n acc.1 ind p
+      | .restore ind => restoreInd n acc.1 ind
+    (stepOp n acc.1 op, acc.2 ++ [r.isNone])) (SliceState.empty, [])
+  pure (jObj [("sliced", jArr (st.slicedInds.map jInfo)), ("mult", jNat st.multiplicity),
+              ("inputs", jNats st.slicedInputs), ("strides", jNats (getSliceStrides st.slicedInds)),
+              ("nchunks", jNat (nchunks st.slicedInds)), ("stepsize", jNat (stepsize st.slicedInds)),
+              ("errors", jArr (errs.map jBool)),
+              ("same_as_runOps", jBool (st == runOps n ops))])
+
+/-- op `c06.keys`: `slice_key(i)` for all `i < nslices` -/
+def keys : Handler := fun j => do
+  let sl ← infosOf (← field j "sliced")
+  pure (jObj [("keys", jArr ((List.range (prodSizes sl)).map fun i => jKey (sliceKey sl i))),
+              ("nslices", jNat (prodSizes sl))])
+
+/-- op `c06.cert`: the verified certificate checker on a real key table -/
+def cert : Handler := fun j => do
+  let sl ← infosOf (← field j "sliced")
+  let ks ← (← arrOf (← field j "keys")).mapM pairList
+  pure (jObj [("ok", jBool (keysCert sl ks))])
+
+/-- op `c06.selectors`: the indexing objects of `slice_arrays` for a given key -/
+def selectors : Handler := fun j => do
+  let terms ← natListList (← field j "terms")
+  let sin ← natList (← field j "sliced_inputs")
+  let key ← pairList (← field j "key")
+  let rows := (terms.zip (List.range terms.length)).map fun (term, c) =>
+    if sin.contains c then jArr ((selector key term).map jOptNat) else Json.null
+  pure (jObj [("selectors", jArr rows)])
+
+/-- op `c06.select`: basic indexing on an array -/
+def select : Handler := fun j => do
+  let a ← arrOfJson (← field j "arr")
+  let sel ← (← arrOf (← field j "sel")).mapM optNat
+  pure (jArrOf (a.select sel))
+
+/-- op `c06.slice_arrays`: `slice_arrays(arrays, i)` with the model's own key of slice `i` -/
+def sliceArraysOp : Handler := fun j => do
+  let n ← netOf (← field j "net")
+  let sl ← infosOf (← field j "sliced")
+  let sin ← natList (← field j "sliced_inputs")
+  let arrays ← (← arrOf (← field j "arrays")).mapM arrOfJson
+  let i ← natOf (← field j "i")
+  let st : SliceState := ⟨sl, prodSizes sl, sin⟩
+  pure (jObj [("arrays", jArr ((sliceArrays n st arrays i).map jArrOf))])
+
+/-- op `c06.gather`: `gather_slices(slices)` -/
+def gather : Handler := fun j => do
+  let out ← natList (← field j "output")
+  let sl ← infosOf (← field j "sliced")
+  let slices ← (← arrOf (← field j "slices")).mapM arrOfJson
+  match gatherSlices out sl slices with
+  | none => pure (jObj [("ok", jBool false)])
+  | some r => pure (jObj [("ok", jBool true), ("result", jArrOf r)])
+
+/-- op `c06.chunks`: `gen_output_chunks(with_key=True)` given the per-slice results -/
+def chunks : Handler := fun j => do
+  let out ← natList (← field j "output")
+  let sl ← infosOf (← field j "sliced")
+  let mult ← natOf (← field j "mult")
+  let slices ← (← arrOf (← field j "slices")).mapM arrOfJson
+  let sa := slices.toArray
+  -- a slice result has the shape of slice 0 (the sum keeps the first operand's shape)
+  let res := genOutputChunks out sl mult (fun i => sa.getD i Arr.zero)
+  let plan := chunkPlan out sl mult
+  pure (jObj [("chunks", jArr (res.map fun (a, k) => jObj [("key", jKey k), ("arr", jArrOf a)])),
+              ("plan", jArr (plan.map fun (is, k) => jObj [("slices", jNats is), ("key", jKey k)]))])
+
+def handlers : List (String × Handler) :=
+  [("c06.state", state), ("c06.keys", keys), ("c06.cert", cert), ("c06.selectors", selectors),
+   ("c06.select", select), ("c06.slice_arrays", sliceArraysOp), ("c06.gather", gather),
+   ("c06.chunks", chunks)]
 
 end Cotengra.Driver.C06
